@@ -14,7 +14,8 @@
    under an enforced scheduler and under stress, and monitors the real write sets.
 
    Clauses -> statements
-     which objects a call touches (state partition)      C14_footprints_disjoint, C14_writes_complete,
+     which objects a call touches (state partition)      C14_footprints_disjoint, C14_view_determines_step,
+                                                         C14_other_threads_preserve_view, C14_writes_complete,
                                                          C14_sinks_never_observed, C14_foreign_tracker_never_touched
      every interleaving, any number of threads, inputs    C14_interleaving_independent, C14_results_so_far
      what the generated tie facts protect                 C14_shared_lexer_refuted, C14_shared_tracker_refuted
@@ -63,6 +64,27 @@ Theorem C14_footprints_disjoint : C14_footprints_disjoint_statement.
 Proof.
   intros w t u x Hr Hne Ht Hu. pose proof (reachable_inv w Hr) as Hall.
   exact (footprints_disjoint gen_scopes gen_lx gen_tr t u _ _ _ x Hne (Hall t) (Hall u) Ht Hu).
+Qed.
+
+(* the semantic core of the partition (the declared READ sets are not separately proved complete; this is
+   the stronger fact the projection uses): in a reachable world the next step of thread t is determined
+   by t's VIEW — its threading.local slot, its lexer, the module lexer, the trackers it made, its token
+   objects — and yields the same view; and a step of any OTHER thread leaves that view unchanged *)
+Definition C14_view_determines_step_statement : Prop :=
+  forall w t σ', reachable w -> same_view t (w_store w) σ' ->
+    fst (step gen_scopes t (w_locals w t) (w_store w)) = fst (step gen_scopes t (w_locals w t) σ') /\
+    same_view t (snd (step gen_scopes t (w_locals w t) (w_store w))) (snd (step gen_scopes t (w_locals w t) σ')).
+Theorem C14_view_determines_step : C14_view_determines_step_statement.
+Proof.
+  intros w t σ' Hr Hv. exact (step_view gen_scopes gen_lx gen_tr t _ _ _ (reachable_inv w Hr t) Hv).
+Qed.
+
+Definition C14_other_threads_preserve_view_statement : Prop :=
+  forall w t u, reachable w -> u <> t ->
+    same_view t (w_store w) (snd (step gen_scopes u (w_locals w u) (w_store w))).
+Theorem C14_other_threads_preserve_view : C14_other_threads_preserve_view_statement.
+Proof.
+  intros w t u Hr Hne. exact (step_frame gen_scopes gen_lx gen_tr t u _ _ Hne (reachable_inv w Hr u)).
 Qed.
 
 (* the declared write set is complete — for ANY scopes, any state: a location outside it keeps its value *)
@@ -240,6 +262,8 @@ Proof. repeat split; try reflexivity. exists inputs3, store_used, sched3. reflex
 
 Print Assumptions C14_ties.
 Print Assumptions C14_footprints_disjoint.
+Print Assumptions C14_view_determines_step.
+Print Assumptions C14_other_threads_preserve_view.
 Print Assumptions C14_writes_complete.
 Print Assumptions C14_sinks_never_observed.
 Print Assumptions C14_foreign_tracker_never_touched.
